@@ -50,11 +50,18 @@ def _repo_frame(text):
     # valgrind: "by 0x...: func (file.rs:123)" / "at 0x...: func (file.rs:123)"
     for m in re.finditer(r"(?:at|by) 0x[0-9A-Fa-f]+: (.+?) \(([^():]+\.rs):\d+\)", text):
         frames.append((m.group(2), m.group(1)))
+    # ASan: "#3 0x55.. in func /path/file.rs:123:9"
+    for m in re.finditer(r"#\d+ 0x[0-9a-f]+ in (.+?) (/[^\s:]+\.rs):\d+", text):
+        frames.append((m.group(2), m.group(1)))
     def clean(fn):
         fn = re.sub(r"<[^<>]*>", "", fn)
         fn = re.sub(r"::\{closure[^}]*\}", "", fn)
         fn = re.sub(r"::h[0-9a-f]{16}$", "", fn)
         return fn.strip()
+    for path, fn in frames:
+        # the host touching guest memory at completion time / probing a registered callback_ptr
+        if any(x in fn for x in ("probe_ptr", "payload::probe", "host_read_elem", "host_write_elem")):
+            return "host access to guest memory (buffer or registered pointer no longer valid)", clean(fn)
     for path, fn in frames:
         if "guest-rust/src" in path or (repo in path and "guest-rust" in path) or "async_support" in path:
             return "runtime", clean(fn)
@@ -91,8 +98,8 @@ class Plan:
         self.native_shards = 12
         self.miri_shards = 12
         self.miri_random = 40
-        self.miri_budget_s = 50
-        self.miri_timeout = 170
+        self.miri_budget_s = 40
+        self.miri_timeout = 150
         self.native_timeout = 420
         self.valgrind = False
         self.native_args = []
@@ -241,6 +248,44 @@ def valgrind_shard(plan, rep, tier, seed, scratch, bindir_release):
         rep.inconc("valgrind shard exited rc=%s: %s" % (rc, (se or "")[-300:]))
 
 
+def asan_shard(plan, rep, tier, seed, scratch):
+    """AddressSanitizer build (nightly, explicit target) of the same harness."""
+    flags = "--cfg %s -Zsanitizer=address -Awarnings" % vcommon.GUARD
+    try:
+        vcommon.cargo_build(ENGINE, bins=[plan.bin], toolchain="nightly", extra_args=["--target", "x86_64-unknown-linux-gnu"], env_extra={"RUSTFLAGS": flags}, timeout=1800)
+    except vcommon.HarnessFailure as e:
+        rep.inconc("asan: build failed: %s" % str(e)[-300:])
+        return
+    exe = os.path.join(vcommon.TARGET, "x86_64-unknown-linux-gnu", "debug", plan.bin)
+    out = os.path.join(scratch, "asan.json")
+    env = vcommon.base_env({"ASAN_OPTIONS": "detect_leaks=0:abort_on_error=0", "RT_HOST_ANNOUNCE": "1"})
+    rc, so, se = _run([exe, "--seed", str(seed + 99), "--random", "1500", "--max-exhaustive", "3000", "--depth", "6", "--out", out], 1500, env=env)
+    data = None
+    try:
+        with open(out) as f:
+            data = json.load(f)
+        rep.extra["asan_executions"] = int(data.get("evaluations", 0))
+        data["extra"] = {}
+        data["samples"] = []
+        rep.merge(data)
+    except Exception:
+        data = None
+    if rc is None:
+        rep.inconc("asan shard: wall-clock watchdog fired")
+    elif rc != 0 and "AddressSanitizer" in (se or ""):
+        m = re.search(r"ERROR: AddressSanitizer: ([a-z\-]+)", se)
+        idx = se.find("ERROR: AddressSanitizer")
+        block = se[idx: idx + 3000]
+        where, fn = _repo_frame(block)
+        last = _last_exec(se[:idx])
+        if where:
+            rep.violations.append({"signature": "asan:%s:%s" % (m.group(1) if m else "error", _slug(fn or "?")), "what": "AddressSanitizer report in the %s: %s" % (where, block[:1500]), "replay": dict(last or {}, tool="asan")})
+        else:
+            rep.inconc("asan reported an error outside the runtime: %s" % block[:400])
+    elif rc != 0 and data is None:
+        rep.inconc("asan shard exited rc=%s: %s" % (rc, (se or "")[-300:]))
+
+
 def confirm(plan, rep, bindir, scratch):
     """Replay every native violation in a fresh process; keep it only if the
     same signature shows up again (tool reports are kept as they are)."""
@@ -320,6 +365,12 @@ def run(prop, binname, tier, seed, replay_doc, rule, tune=None):
         tune(plan, tier)
     scratch = vcommon.scratch_dir(prop.lower())
     try:
+        if tier == "thorough" and replay_doc is None and not os.environ.get("RTHOST_SKIP_PLAIN"):
+            # the runtime without async-spawn / inter-task-wakeup / futures-stream
+            plain = vcommon.cargo_build(ENGINE, bins=[plan.bin], extra_args=["--no-default-features"], timeout=1500)
+            native_shards(plan, rep, plain, "quick", seed + 2, scratch, "plain-features")
+            confirm(plan, rep, plain, scratch)
+            rep.extra["plain_feature_executions"] = rep.evaluations
         bindir = build(plan, rep)
         if replay_doc is not None:
             replay(plan, rep, replay_doc, bindir, scratch)
@@ -333,11 +384,15 @@ def run(prop, binname, tier, seed, replay_doc, rule, tune=None):
             rep.extra["native_wall_s"] = round(time.time() - t0, 1)
             fut_miri.result()
             rep.extra["miri_wall_s"] = round(time.time() - t0, 1)
+        if tier == "thorough":
+            native_shards(plan, rep, bindir, "quick", seed + 3, scratch, "reuse-handles", extra=["--reuse", "1", "--max-exhaustive", "0"])
         if plan.release_too:
             rel = build(plan, rep, release=True)
             native_shards(plan, rep, rel, tier, seed + 1, scratch, "release", extra=["--max-exhaustive", "0"])
             if plan.valgrind:
                 valgrind_shard(plan, rep, tier, seed, scratch, rel)
+            if not os.environ.get("RTHOST_SKIP_ASAN"):
+                asan_shard(plan, rep, tier, seed, scratch)
         confirm(plan, rep, bindir, scratch)
         merged = {}
         for i in rep.inconclusive:
